@@ -409,3 +409,34 @@ Definition import_m (outbits : Z) (s : list Z) : option (list Z * list Z) :=
       end
   | _, _ => None
   end.
+
+(* ------------------------------------------------------------------------------------------ *)
+(** * The domain of the equality claim: "comparable content" *)
+
+(** values of an array of number type t lie in the type's range (integer types, any flavour), or t is a
+    floating type (values are bit patterns of NaN-free data without negative zero) *)
+Definition elem_domain (t : Z) (v : list Z) : Prop :=
+  (exists lo hi, nt_range (Z.land t DFNT_MASK) = Some (lo, hi) /\ Forall (in_range lo hi) v) \/ ad_kind t = ADFloat.
+
+Definition attr_shape (a b : attr) : Prop :=
+  a_name a = a_name b /\ a_type a = a_type b /\ length (a_vals a) = length (a_vals b).
+
+(** two objects hdiff pairs up are of the same class, type and shape (otherwise: "Comparison not supported") *)
+Definition comparable_body (x y : body) : Prop :=
+  match x, y with
+  | BSds t1 d1 v1 a1, BSds t2 d2 v2 a2 =>
+      t1 = t2 /\ d1 = d2 /\ v1 <> [] /\ length v1 = length v2 /\ elem_domain t1 v1 /\ elem_domain t1 v2 /\ Forall2 attr_shape a1 a2
+  | BGr t1 c1 x1 y1 v1, BGr t2 c2 x2 y2 v2 =>
+      t1 = t2 /\ c1 = c2 /\ x1 = x2 /\ y1 = y2 /\ 0 <= x1 * y1 * c1 /\ Z.of_nat (length v1) = x1 * y1 * c1 /\
+      Z.of_nat (length v2) = x1 * y1 * c1 /\ elem_domain t1 v1 /\ elem_domain t1 v2
+  | BVd n1 f1 v1, BVd n2 f2 v2 => n1 = n2 /\ f1 = f2
+  | BVg, BVg => True
+  | _, _ => False
+  end.
+
+(** same object names in the same order (an object present in one file only is the known finding
+    match_added_object_refuted), pairwise comparable, global attribute names unique *)
+Definition comparable (f1 f2 : file) : Prop :=
+  map o_name (f_objs f1) = map o_name (f_objs f2) /\
+  Forall2 (fun a b => comparable_body (o_body a) (o_body b)) (f_objs f1) (f_objs f2) /\
+  NoDup (map a_name (f_gattrs f1)) /\ NoDup (map a_name (f_gattrs f2)).
